@@ -498,7 +498,10 @@ fn var_build_raw(prog: &[Sx], ins: &[usize], outs: &[usize], leaked: bool) -> Op
     use std::rc::Rc;
     let bad = RefCell::new(false);
     let leak: RefCell<Option<V>> = RefCell::new(None);
+    // a weak reference to the builder state outlives the closure: it owns nothing and must not make `build` fail
+    let weak: RefCell<Option<std::rc::Weak<RefCell<LOHG>>>> = RefCell::new(None);
     let r = var::build(|state: &Rc<RefCell<LOHG>>| {
+        *weak.borrow_mut() = Some(Rc::downgrade(state));
         let mut vs: Vec<V> = vec![];
         for c in prog {
             let ok = (|| -> Option<()> {
@@ -556,6 +559,7 @@ fn var_build_raw(prog: &[Sx], ins: &[usize], outs: &[usize], leaked: bool) -> Op
         return None;
     }
     drop(leak);
+    drop(weak);
     Some(r)
 }
 
@@ -788,6 +792,10 @@ pub fn dispatch(op: &str, a: &[Sx]) -> Option<Sx> {
         "lohg_singleton" => e_lohg(&LOHG::singleton(Lab(d_nat(&a[0])?), d_nats(&a[1])?, d_nats(&a[2])?)),
         "lohg_identity" => e_lohg(&LOHG::identity(d_nats(&a[0])?)),
         "lohg_spider" => e_opt(LOHG::spider(d_ff(&a[0])?, d_ff(&a[1])?, d_nats(&a[2])?), |f| e_lohg(&f)),
+        "lohg_half_spider" => ok(e_opt(
+            <LOHG as Spider<VecKind>>::half_spider(d_ff(&a[0])?, d_nats(&a[1])?),
+            |f| e_lohg(&f),
+        )),
         "lohg_tensor" => {
             let (f, g) = (d_lohg(&a[0])?, d_lohg(&a[1])?);
             let r = f.tensor(&g);
